@@ -169,7 +169,7 @@ Theorem C10_last_word_spec : forall (ign : irow -> option str) (V : Type) (def :
   exists pre r post, rows = pre ++ r :: post /\ last_word str_eqb ign def post n = None /\
     ((exists m, ign r = Some m /\ str_eqb m n = true /\ w = None) \/
      (exists k v, ign r = None /\ def r = Some (k, v) /\ str_eqb k n = true /\ w = Some v)).
-Proof. exact (fun ign V def => last_word_spec str_eqb ign def). Qed.
+Proof. exact last_word_spec_str. Qed.
 Print Assumptions C10_last_word_spec.
 
 Example C10_last_word_nonvacuous :
